@@ -103,9 +103,102 @@ func registerModels(e *Engine) {
 	// (an arbitrary value of the response type; ok=false on cancellation).
 	e.models[e.modPath+"/internal/gchan.ReqResp"] = func(a *Act, st *State, args []Val, resT types.Type, pos token.Pos) Val {
 		if a.curCall != nil && len(a.curCall.Args) >= 4 && len(args) >= 4 {
+			// site reqresp <channel>: assertion on the request value at this call (reqValue names it)
+			if t := a; t.con != nil && !t.inlined && a.vc.quiet == 0 {
+				rk := a.chanKey(a.curCall.Args[2])
+				for _, c := range t.con.Sites {
+					if c.Kind != "site-reqresp" || !strings.HasSuffix(rk, c.LoopFn) {
+						continue
+					}
+					env := a.specEnv(st)
+					env.vars["reqValue"] = args[3]
+					a.siteN++
+					name := fmt.Sprintf("%s/site reqresp %s.%s#%d", a.prefix, c.LoopFn, c.Label, a.siteN)
+					if v, err := env.evalBool(c.Expr); err != nil {
+						a.vc.oblige(name, "site", a.props, c.Line, st.guard, "false", "contract error: "+err.Error()+" in: "+c.Text)
+					} else {
+						a.vc.oblige(name, "site", a.props, a.pos(pos)+" ["+c.Line+"]", st.guard, v, "at the request sent on "+c.LoopFn+": "+c.Text)
+					}
+				}
+			}
 			a.chanSend(st, args[2], args[3], a.curCall.Args[2], pos)
 		}
-		return a.freshVal("reqresp", resT)
+		// The peer goroutine answers after working on the request, which may carry pointers into this goroutine's
+		// memory (e.g. a view to fill in): everything except the fields of the verified method's receiver type may have
+		// changed when the response arrives.
+		top := a
+		if a.top != nil {
+			top = a.top
+		}
+		var keep []string
+		if top.fn != nil && top.fn.Signature.Recv() != nil {
+			t := top.fn.Signature.Recv().Type()
+			if p, ok := t.Underlying().(*types.Pointer); ok {
+				t = p.Elem()
+			}
+			if n, ok := types.Unalias(t).(*types.Named); ok {
+				keep = append(keep, n.Obj().Name())
+			}
+		}
+		a.vc.noteAssumed("gchan.ReqResp: the responder may write any memory except the fields of the receiver type " + strings.Join(keep, ","))
+		a.havocHeaps(st, true, keep)
+		ntop := a.vc.fresh("top", sInt)
+		a.vc.assume("true", "(>= "+ntop+" "+st.top+")")
+		st.top = ntop
+		res := a.freshVal("reqresp", resT)
+		// the response is a value received on respChan: the responder guarantees that channel's invariant
+		if a.curCall != nil && len(a.curCall.Args) >= 5 && len(res.Tup) == 2 {
+			ci := a.chanInvFor(a.curCall.Args[4])
+			if ci == nil && args[3].T != nil && args[3].S != "" && len(args) >= 5 {
+				// the response channel is usually also a field of the request (req.Resp): use that field's invariant,
+				// after proving that the field really is the channel passed as respChan
+				if si := a.vc.g.structInfoOf(args[3].T); si != nil {
+					for i, f := range si.Fields {
+						fc, isChan := f.T.Underlying().(*types.Chan)
+						rc, isChan2 := args[4].T.Underlying().(*types.Chan)
+						if !isChan || !isChan2 || !types.Identical(fc.Elem(), rc.Elem()) {
+							continue
+						}
+						c2 := a.eng.chaninvs[a.fieldKey(args[3].T, f.Name)]
+						if c2 == nil {
+							continue
+						}
+						fv := a.getPath(args[3], []int{i})
+						if fv.S == "" {
+							continue
+						}
+						a.vc.oblige(a.oblName("reqresp-channel"), "pre", a.props, a.pos(pos), st.guard, eq(fv.S, args[4].S), "the response channel passed to ReqResp is the request's "+f.Name+" field")
+						ci = c2
+						break
+					}
+				}
+			}
+			if top.con != nil && len(top.con.Relies) > 0 && !a.inlined {
+				rk := a.chanKey(a.curCall.Args[2])
+				for _, c := range top.con.Relies {
+					if !strings.HasSuffix(rk, c.LoopFn) {
+						continue
+					}
+					env := a.specEnv(st)
+					if f, err := env.evalBool(c.Expr); err == nil {
+						a.vc.assume(st.guard, implies(res.Tup[1].S, f))
+						a.vc.noteAssumed("rely (responder of " + c.LoopFn + "): " + c.Text)
+					} else {
+						a.vc.oblige(a.oblName("contract-error"), "pre", a.props, c.Line, st.guard, "false", "contract error in rely: "+err.Error())
+					}
+				}
+			}
+			if ci != nil {
+				env := a.specEnv(st)
+				env.vars[ci.Var] = res.Tup[0]
+				env.pkg = a.eng.pkgByPath[ci.Pkg]
+				if f, err := env.evalBool(ci.Expr); err == nil {
+					a.vc.assume(st.guard, implies(res.Tup[1].S, f))
+					a.vc.noteAssumed("received response satisfies its channel invariant (guaranteed by the sender's chan-send obligations where the sender is under contract): " + ci.Text)
+				}
+			}
+		}
+		return res
 	}
 	e.models[e.modPath+"/internal/gchan.SendC"] = sendC
 	e.models[e.modPath+"/internal/gchan.SendCLogBlocked"] = sendC
